@@ -1073,7 +1073,7 @@ impl<'a> Message<'a> {
                 let mut hmac_data = self.data[..data_offset].to_vec();
                 BigEndian::write_u16(
                     &mut hmac_data[2..4],
-                    data_offset as u16 + 24 - MessageHeader::LENGTH as u16,
+                    (data_offset + 24 - MessageHeader::LENGTH) as u16,
                 );
                 MessageIntegrity::verify(
                     &hmac_data,
@@ -1093,7 +1093,7 @@ impl<'a> Message<'a> {
                 let mut hmac_data = self.data[..data_offset].to_vec();
                 BigEndian::write_u16(
                     &mut hmac_data[2..4],
-                    data_offset as u16 + attr.length() + 4 - MessageHeader::LENGTH as u16,
+                    (data_offset + attr.length() as usize + 4 - MessageHeader::LENGTH) as u16,
                 );
                 MessageIntegritySha256::verify(&hmac_data, &key, &msg_hmac)?;
                 return Ok(algo);
